@@ -66,6 +66,33 @@ mutual
        | none => false) && validChildrenS ps cs
 end
 
+/-! ## The denotation with inheritance across namespaces
+
+A local element is qualified with the namespace of the schema document that declares it, i.e. of the
+class that declares the member — for an inherited member that is the ancestor's namespace. -/
+
+/-- the namespace of the declaring class, for every flattened member of `D` (base chain walked) -/
+def fieldNs (A : App) : Nat → ClassDef → List Text
+  | 0, _ => []
+  | f + 1, D =>
+    (match parentOf A.iface D with
+     | some P => fieldNs A f P
+     | none => []) ++ (ownFields A.iface D).map (fun _ => D.ns)
+
+mutual
+  /-- what a model class denotes in a multi-namespace application; `ctx` = namespace of the declaring class -/
+  def denoteG (A : App) (ctx : Text) : Ty → STy
+    | .prim p _ => .simple (builtinOf p) (primFacetsA A p)
+    | .obj name ns b fields _ =>
+      .complex (denoteFieldsG A (fieldNs A (A.iface.classes.length + 1) { name := name, ns := ns, base := b, fields := fields }) fields)
+    | .arr member elem _ =>
+      .complex [((memberNs A.tns ctx member elem, memberLocal member), elem.occ, denoteG A ctx elem)]
+
+  def denoteFieldsG (A : App) : List Text → List (Text × Ty) → List (Key × Occ × STy)
+    | n :: ns, (k, t) :: fs => ((n, k), t.occ, denoteG A n t) :: denoteFieldsG A ns fs
+    | _, _ => []
+end
+
 /-! ## Well-formed universes (all decidable; every generated universe is checked through the driver) -/
 
 mutual
@@ -118,9 +145,8 @@ mutual
       decide (k ≠ xsiNilKey) && tyWf t && (match t with | .arr _ _ o => !o.repeated | _ => true) && fieldsWf fs
 end
 
-/-- the base chain of `C` ends at a root within `fuel` steps, every ancestor is registered, lives in
-    the same namespace (the encoder model writes all members of an instance in one namespace) and
-    its flattened member list is a prefix of `C`'s -/
+/-- the base chain of `C` ends at a root within `fuel` steps, every ancestor is registered and its
+    flattened member list is a prefix of `C`'s (ancestors may live in other namespaces) -/
 def chainOk (I : Iface) : Nat → ClassDef → Bool
   | 0, _ => false
   | fuel + 1, C =>
@@ -130,8 +156,20 @@ def chainOk (I : Iface) : Nat → ClassDef → Bool
       match I.classes.find? b with
       | none => false
       | some P =>
-        decide (P.ns = C.ns) && decide (P.fields.length ≤ C.fields.length) &&
+        decide (P.fields.length ≤ C.fields.length) &&
         fieldsBeq P.fields (C.fields.take P.fields.length) && chainOk I fuel P
+
+/-- every ancestor of `C` lives in `C`'s namespace: the case the XML encoder model of build-XML
+    covers (it writes all members of an instance in the class namespace) -/
+def chainSameNs (I : Iface) : Nat → ClassDef → Bool
+  | 0, _ => false
+  | fuel + 1, C =>
+    match C.base with
+    | none => true
+    | some b =>
+      match I.classes.find? b with
+      | none => false
+      | some P => decide (P.ns = C.ns) && chainSameNs I fuel P
 
 def functional {α} [DecidableEq α] : List (Key × α) → Bool
   | [] => true
@@ -367,6 +405,11 @@ def App.resolvesOk (A : App) : Bool :=
 /-- well-formed universe: sane hierarchy and member lists, no name clashes (closedness,
     `App.resolvesOk`, follows: `Proofs/SchemaGen.closed_of_wf`) -/
 def App.wf (A : App) : Bool := A.wfBase && A.noClash && A.valuesWf
+
+/-- all inheritance chains stay inside one namespace (hypothesis of the theorems about build-XML's
+    encoder and soft decoder; the schema-side theorems do not need it) -/
+def App.sameNsChains (A : App) : Bool :=
+  A.allClasses.all (fun C => chainSameNs A.iface (A.iface.classes.length + 1) C)
 
 end Schema
 end SpyneModel
